@@ -20,7 +20,7 @@
    the k-th originated packet); theorems over all f cover every policy, theorems about histories start from
    [init_id i0 pk0] for EVERY start value i0 and EVERY policy pk0.  HEAD's policy (f.id++ from 0) is
    [head_pick 0]: C05_head_id_policy. *)
-From OV Require Import Common.Base C05.Model C05.Rfc2 C05.Proofs C05.Proofs2.
+From OV Require Import Common.Base C05.Model C05.Rfc2 C05.Disp C05.Proofs C05.Proofs2 C05.ProofsD.
 Open Scope Z_scope.
 
 (* ---- the specification side is transcribed twice ------------------------------------------- *)
@@ -395,3 +395,91 @@ Theorem C05_updown_alternate_ext_caveats :
      (map XE [EOpen; EUp] ++ [XRestore] ++ map XE [EDown])) = false.
 Proof. exact alternates_ext_caveats. Qed.
 Print Assumptions C05_updown_alternate_ext_caveats.
+
+(* ---- the caller: internal/ppp Dispatcher.HandleFrame and the three-automaton system (Disp.v) ------------ *)
+
+(* HandleFrame delivers a frame where RFC 1661 sends it — LCP frames to the LCP automaton except the codes
+   the host answers itself (8 Protocol-Reject, 9/10 Echo), NCP frames to their NCP in the Network/Open phase
+   only, malformed Length nowhere — as the event Input(Code, Identifier, Data) cut out by the Length field;
+   every automaton that is not the target is untouched. *)
+Theorem C05_dispatch_routes :
+  forall c v ph proto payload k s,
+  let r := handle_frame c v ph proto payload k s in
+  let e := EInput (frame_code payload) (frame_id payload) k (frame_data payload) in
+  d_target r = expected_target ph proto payload /\
+  d_sys r = match expected_target ph proto payload with
+            | TNone => s
+            | TLcp => mkSys (step (lcp_cfg c) v (s_lcp s) e) (s_ipcp s) (s_ip6 s)
+            | TIpcp => mkSys (s_lcp s) (step (ncp_cfg_of c) v (s_ipcp s) e) (s_ip6 s)
+            | TIp6 => mkSys (s_lcp s) (s_ipcp s) (step (ncp_cfg_of c) v (s_ip6 s) e)
+            end.
+Proof. exact dispatch_routes. Qed.
+Print Assumptions C05_dispatch_routes.
+
+(* RFC 1661 3.4: an NCP frame outside the Network phase changes nothing and calls nobody. *)
+Theorem C05_dispatch_phase_gate :
+  forall c v ph proto payload k s,
+  (proto = ProtoIPCP \/ proto = ProtoIPv6CP) -> inNetworkPhase ph = false ->
+  let r := handle_frame c v ph proto payload k s in
+  d_sys r = s /\ d_host r = [] /\ d_target r = TNone.
+Proof. exact dispatch_phase_gate. Qed.
+Print Assumptions C05_dispatch_phase_gate.
+
+(* End to end: whatever frame arrives, the automaton that receives it makes the step of its RFC cell (LCP
+   with the LCP code set, the NCPs with codes 1-7), and nothing else moves. *)
+Theorem C05_dispatch_conforms :
+  forall c ph proto payload k s,
+  let r := handle_frame c Repaired ph proto payload k s in
+  let e := EInput (frame_code payload) (frame_id payload) k (frame_data payload) in
+  match d_target r with
+  | TNone => d_sys r = s
+  | t => conformsb (target_cfg c t) (get t s) e (get t (d_sys r)) = true
+  end.
+Proof. exact dispatch_conforms. Qed.
+Print Assumptions C05_dispatch_conforms.
+
+(* Along every history of frames and administrative calls, each of the three automata is exactly a
+   single automaton run over the events routed to it (routing depends on the operations only), so every
+   single-automaton history theorem above lifts to the session: *)
+Theorem C05_system_projection :
+  forall c v t ops s,
+  t <> TNone ->
+  get t (sys_run c v s ops) = run (target_cfg c t) v (get t s) (flat_map (events_for t) ops).
+Proof. intros c v t ops s. exact (system_projection c v t ops s). Qed.
+Print Assumptions C05_system_projection.
+
+Theorem C05_system_updown_alternate :
+  forall c v t pl pi pv ops, alternates false (sys_trace c v t (sys_init pl pi pv) ops) = true.
+Proof. exact system_alternates. Qed.
+Print Assumptions C05_system_updown_alternate.
+
+Theorem C05_system_up_iff_opened :
+  forall c v t pl pi pv ops,
+  t <> TNone ->
+  up_after false (sys_trace c v t (sys_init pl pi pv) ops)
+  = is_opened (st (get t (sys_run c v (sys_init pl pi pv) ops))).
+Proof. exact system_up_iff_opened. Qed.
+Print Assumptions C05_system_up_iff_opened.
+
+Theorem C05_system_up_needs_both_acks :
+  forall c t pl pi pv ops, both_acked true (sys_trace c Repaired t (sys_init pl pi pv) ops) = true.
+Proof. exact system_both_acked. Qed.
+Print Assumptions C05_system_up_needs_both_acks.
+
+(* Through the dispatcher the LCP automaton never receives codes 8, 9, 10: its Echo/Protocol-Reject cells are
+   implemented by the host callbacks, not by fsm.go. *)
+Theorem C05_lcp_never_sees_host_codes :
+  forall ph proto payload k e,
+  In e (events_for TLcp (SFrame ph proto payload k)) ->
+  exists code id data, e = EInput code id k data /\ code <> 8 /\ code <> 9 /\ code <> 10.
+Proof. exact lcp_never_sees_host_codes. Qed.
+Print Assumptions C05_lcp_never_sees_host_codes.
+
+Example C05_system_nonvacuous :
+  let s := sys_run default_cfg Repaired (sys_init (head_pick 0) (head_pick 0) (head_pick 0)) demo_ops in
+  st (s_lcp s) = Opened /\ st (s_ipcp s) = Opened /\ st (s_ip6 s) = Initial /\
+  flat_map (events_for TIpcp) (firstn 3 demo_ops) = [] /\
+  expected_target PhEstablish ProtoLCP frameLcpReq = TLcp /\
+  frame_data frameLcpReq = [1; 4; 5; 212].
+Proof. exact system_nonvac. Qed.
+Print Assumptions C05_system_nonvacuous.
